@@ -9,10 +9,6 @@ open Vutil
 open Vmsg
 open WireModel
 
-(* the model's encoder, with the linear-time reversal proved equal to it
-   (coq/Wire/WireFast.v: encode_fast_eq) *)
-let encode = WireFast.encode_fast
-
 let show_werr ((k, id) : werr) : string =
   "Err:" ^ Drv_name.werr_name k ^ ":" ^ (match werr_id (k, id) with Some i -> string_of_n i | None -> "-")
 
